@@ -1,10 +1,10 @@
 package lens
 
 import (
-	"encoding/pem"
 	"bytes"
 	"context"
 	"crypto/x509"
+	"encoding/pem"
 	"fmt"
 	"math/rand/v2"
 	"os"
